@@ -7,6 +7,8 @@ from __future__ import annotations
 
 from rules import bf3
 from rules.exactread import rule_exact_reads
+from rules import stackfile
+from rules import stackrt
 
 LEVEL = "other"
 
@@ -27,4 +29,5 @@ def run(prog, chk, tier):
         bf3.tag_compare_rules(m, chk, "C01")
     bf3.envelope_writer_rules(m, chk, "C01")
     bf3.envelope_reader_rules(m, chk, "C01")
+    stackrt.guarded(chk, "C01.stack-bf3", stackfile.bf3_file_rules, prog, chk, "C01", tier, want=("roundtrip",))
     rule_exact_reads(prog, chk, "C01")
